@@ -20,12 +20,19 @@
 (*   HbTick/HbHealth/HbUpdateResp/HbTimeout    heartbeat.go heartbeatLoop   *)
 (*   ValTick/ValGetResp                        fencing.go validationLoop    *)
 (*   WatchOpenResp/WatchEvent/CheckTick/CheckResp/WatchExit  watcher.go     *)
-(*   StopBegin/StopWaitDone/StopWaitTimeout/StopOwnsResp/StopDeleteResp/    *)
-(*   StopFinish            Stop, StopWithContext                            *)
+(*   ValCancelled          validateToken under a cancelled term context     *)
+(*   StopBegin/StopWaitDone/StopAbort/StopOwnsResp/StopDeleteResp/          *)
+(*   StopFinish            Stop, StopWithContext (incl. the error return    *)
+(*                         on a cancelled context: life "halted")           *)
 (*   ApiValidate*          ValidateToken, ValidateTokenOrDemote             *)
 (*   Disconnect/GraceFire/Reconnect/Verify*/Closed   connection.go          *)
 (*   StoreApply/StoreFail/LoseAck/Expire(implicit)/Deliver/DropEvent/       *)
-(*   OutsidePut/OutsideDelete/Partition/Heal   environment                  *)
+(*   OutsidePut (well-formed foreign payload, payload forged under an       *)
+(*   instance's id, unparsable bytes, zero-length value)/OutsideDelete/     *)
+(*   Partition/Heal        environment                                      *)
+(* ghosts (g.viol, lostAt, vacSince, pdue, preSince, calm, quiet) carry     *)
+(* what the properties of Props.tla need: C01 C02 C03 C04 C05 C06 C07 C08   *)
+(* C10 C11 C12 are checked as invariants over them (end of the module).     *)
 (*   Advance               time                                             *)
 (*                                                                         *)
 (* Dev (a set of deviation names) switches on behaviour the code had before *)
@@ -52,7 +59,8 @@ CONSTANTS
   HN,          \* [Inst -> Nat] health threshold, 0 = no health checker
   CONN,        \* [Inst -> BOOLEAN] connection monitoring
   MaxStarts, MaxStops, MaxFaults, MaxOutside, MaxUnhealthy, MaxConnEv, MaxApi,
-  StopKinds,   \* subset of {"stop", "ctx", "ctxdel"}
+  StopKinds,   \* subset of {"stop", "ctx", "ctxdel", "ctxabort"}
+  OutKinds,    \* outside interference: subset of {"del", "other", "as", "malformed", "empty"}
   Faults,      \* subset of {"fail", "loseack", "partition", "drop", "hang"}
   Dev          \* deviations switched on
 
@@ -78,13 +86,15 @@ VARIABLES
 
 vars == <<now, rec, seq, ntok, wq, el, th, orph, g>>
 
-Absent == [kind |-> "absent", id |-> None, tok |-> 0, prio |-> 0, rev |-> 0, at |-> 0, writer |-> None]
+Absent == [kind |-> "absent", id |-> None, tok |-> 0, prio |-> 0, rev |-> 0, at |-> 0, writer |-> None, cls |-> "payload"]
+Readable == rec.cls = "payload"                                   \* json.Unmarshal into the payload struct succeeds
 Live == rec.kind = "val" /\ now < rec.at + TTL
 Cur == IF rec.kind # "absent" /\ now < rec.at + TTL THEN rec ELSE Absent      \* tombstones expire too
 LastSeq == Cur.rev
 
 NoOp == [kind |-> None, ph |-> None, exp |-> 0, tok |-> 0, at |-> 0, ok |-> FALSE, res |-> 0,
-         err |-> None, rid |-> None, rtok |-> 0, rprio |-> 0, lost |-> FALSE, own |-> FALSE]
+         err |-> None, rid |-> None, rtok |-> 0, rprio |-> 0, lost |-> FALSE, own |-> FALSE,
+         rcls |-> "payload"]  \* class of the bytes a read returned: "malformed" and "empty" cannot be parsed
 Idle == [pc |-> "idle", due |-> 0, op |-> NoOp, gen |-> 0, term |-> 0, n |-> 0, aux |-> 0]
 
 El0 == [life |-> "init", alive |-> FALSE, ctxnil |-> TRUE, gen |-> 0,
@@ -95,7 +105,8 @@ El0 == [life |-> "init", alive |-> FALSE, ctxnil |-> TRUE, gen |-> 0,
         part |-> FALSE, conn |-> "connected", grace |-> -1, wasLeader |-> FALSE,
         stopRet |-> FALSE,
         lostAt |-> -1,     \* ghost: when the record of this claiming instance stopped being its own
-        lastDisc |-> -1, pdue |-> -1]   \* ghost: latest disconnect notification; grace deadline the property demands
+        lastDisc |-> -1, pdue |-> -1,   \* ghost: latest disconnect notification; grace deadline the property demands
+        preSince |-> -1]                \* ghost: since when this instance could preempt a lower-priority leader (C10)
 
 G0 == [starts |-> 0, stops |-> 0, faults |-> 0, outside |-> 0, unhealthy |-> 0, connev |-> 0, api |-> 0,
        tokens |-> {}, viol |-> {}, overflow |-> FALSE,
@@ -167,7 +178,9 @@ BecomeFollower(i, s) ==
 Demoted(s, was) ==
   IF ~was THEN s
   ELSE LET gg == IF s.e.cb # 1 THEN Viol(s.g, "C08_demotion_without_matching_promotion") ELSE s.g
-       IN [s EXCEPT !.e.cb = @ - 1, !.g = gg]
+           \* C07: in fault-free operation (g.quiet) no term ends except by the instance's own stop
+           g2 == IF gg.quiet THEN Viol(gg, "C07_demoted_in_fault_free_operation") ELSE gg
+       IN [s EXCEPT !.e.cb = @ - 1, !.g = g2]
 
 DemoteBy(i, s) == LET r == BecomeFollower(i, s) IN Demoted([e |-> r.e, t |-> r.t, g |-> r.g, w |-> r.w], r.was)
 
@@ -177,7 +190,7 @@ Commit(i, s) == /\ el' = [el EXCEPT ![i] = s.e] /\ th' = [th EXCEPT ![i] = s.t] 
 \* ---------------------------------------------------------------------------
 \* API: Start
 Start(i) ==
-  /\ el[i].life \in {"init", "stopped"} /\ g.starts < MaxStarts
+  /\ el[i].life \in {"init", "stopped", "halted"} /\ g.starts < MaxStarts     \* halted: e.ctx is cancelled, not nil: Start accepts
   /\ th[i]["stp"].pc = "idle"
   /\ th[i]["acq"].pc = "idle"
   /\ LET e == [el[i] EXCEPT !.life = "running", !.alive = TRUE, !.ctxnil = FALSE, !.gen = @ + 1,
@@ -193,7 +206,7 @@ Start(i) ==
 Notify(ev) == [j \in Inst |-> IF el[j].wrun \/ th[j]["w"].pc \in {"loop", "chk", "open"} THEN Append(wq[j], ev) ELSE wq[j]]
 
 Legit(i, kind, tok) ==
-  LET p == [live |-> Live, id |-> rec.id, tok |-> rec.tok, prio |-> rec.prio, cls |-> "payload",
+  LET p == [live |-> Live, id |-> rec.id, tok |-> rec.tok, prio |-> rec.prio, cls |-> rec.cls,
             rev |-> rec.rev, writer |-> rec.writer, at |-> rec.at]
       m == [kind |-> kind, id |-> i, tok |-> tok, key |-> "g"]
   IN LegitMutation(m, p, i, TK[i], Prio[i], th[i]["stp"].pc # "idle")
@@ -219,7 +232,7 @@ ReadyCand(j) == el[j].life = "running" /\ ~el[j].part /\ ~el[j].leader /\ th[j][
 Mutate(i, o) ==
   LET del == o.kind = "delete"
       nrec == IF del THEN [Absent EXCEPT !.kind = "tomb", !.rev = seq + 1, !.at = now, !.writer = i]
-              ELSE [kind |-> "val", id |-> i, tok |-> o.tok, prio |-> Prio[i], rev |-> seq + 1, at |-> now, writer |-> i]
+              ELSE [kind |-> "val", id |-> i, tok |-> o.tok, prio |-> Prio[i], rev |-> seq + 1, at |-> now, writer |-> i, cls |-> "payload"]
       ev == IF del THEN [k |-> "del", id |-> None, prio |-> 0, rev |-> seq + 1]
             ELSE [k |-> "val", id |-> i, prio |-> Prio[i], rev |-> seq + 1]
       acquisition == ~del /\ ~(Live /\ rec.writer = i /\ rec.tok = o.tok)
@@ -238,19 +251,24 @@ Mutate(i, o) ==
   IN /\ rec' = nrec /\ seq' = seq + 1 /\ wq' = Notify(ev) /\ g' = g5
      /\ el' = [j \in Inst |-> IF j \in lost THEN [el[j] EXCEPT !.lostAt = now] ELSE el[j]]
 
+\* the notification a watcher receives for the current version of the record
+EvOfRec == IF Cur.kind = "tomb" \/ rec.cls = "empty" THEN [k |-> "del", id |-> None, prio |-> 0, rev |-> rec.rev]   \* nil entry / zero-length value
+           ELSE IF rec.cls = "malformed" THEN [k |-> "bad", id |-> None, prio |-> 0, rev |-> rec.rev]
+           ELSE [k |-> "val", id |-> rec.id, prio |-> rec.prio, rev |-> rec.rev]
+
 \* the store applies the operation of thread s
 StoreApply(i, s) ==
   LET t == T(i, s) o == t.op r == ApplyRes(i, o) IN
   /\ o.ph = "iss" /\ ~el[i].part
   /\ th' = [th EXCEPT ![i][s].op = [o EXCEPT !.ph = "app", !.ok = r.ok, !.res = r.res, !.err = r.err,
-                                             !.rid = IF o.kind = "get" /\ r.ok THEN rec.id ELSE None,
-                                             !.rtok = IF o.kind = "get" /\ r.ok THEN rec.tok ELSE 0,
-                                             !.rprio = IF o.kind = "get" /\ r.ok THEN rec.prio ELSE 0,
+                                             !.rid = IF o.kind = "get" /\ r.ok /\ Readable THEN rec.id ELSE None,
+                                             !.rtok = IF o.kind = "get" /\ r.ok /\ Readable THEN rec.tok ELSE 0,
+                                             !.rprio = IF o.kind = "get" /\ r.ok /\ Readable THEN rec.prio ELSE 0,
+                                             !.rcls = IF o.kind = "get" /\ r.ok THEN rec.cls ELSE "payload",
                                              !.own = @ \/ (o.kind = "get" /\ r.ok /\ el[i].leader /\ rec.id = i /\ rec.tok = el[i].tok)]]
   /\ IF r.mut THEN Mutate(i, o)
      ELSE IF o.kind = "watch"
-          THEN /\ wq' = [wq EXCEPT ![i] = (IF Cur.kind = "val" THEN <<[k |-> "val", id |-> rec.id, prio |-> rec.prio, rev |-> rec.rev]>>
-                                           ELSE IF Cur.kind = "tomb" THEN <<[k |-> "del", id |-> None, prio |-> 0, rev |-> rec.rev]>> ELSE <<>>)
+          THEN /\ wq' = [wq EXCEPT ![i] = (IF Cur.kind \in {"val", "tomb"} THEN <<EvOfRec>> ELSE <<>>)
                                           \o <<[k |-> "nil", id |-> None, prio |-> 0, rev |-> 0]>>]
                /\ UNCHANGED <<rec, seq, g, el>>
           ELSE UNCHANGED <<rec, seq, wq, g, el>>
@@ -303,14 +321,32 @@ DropEvent(i) ==
   /\ g' = [g EXCEPT !.faults = @ + 1, !.calm = FALSE, !.quiet = FALSE]
   /\ UNCHANGED <<now, rec, seq, ntok, el, th, orph>>
 
+\* an outside party (operator, other software, an instance of another deployment) deletes or rewrites the record
+OutsideLoses(j) == el[j].leader /\ Live /\ rec.id = j /\ rec.tok = el[j].tok
 OutsideDelete ==
-  /\ g.outside < MaxOutside /\ Live
+  /\ "del" \in OutKinds /\ g.outside < MaxOutside /\ Live
   /\ rec' = [Absent EXCEPT !.kind = "tomb", !.rev = seq + 1, !.at = now, !.writer = "outside"]
   /\ seq' = seq + 1
   /\ wq' = Notify([k |-> "del", id |-> None, prio |-> 0, rev |-> seq + 1])
   /\ g' = [g EXCEPT !.outside = @ + 1, !.calm = FALSE, !.quiet = FALSE,
                     !.vacSince = IF \E j \in Inst : ReadyCand(j) THEN now ELSE @]
-  /\ el' = [j \in Inst |-> IF el[j].leader /\ rec.id = j /\ rec.tok = el[j].tok THEN [el[j] EXCEPT !.lostAt = now] ELSE el[j]]
+  /\ el' = [j \in Inst |-> IF OutsideLoses(j) THEN [el[j] EXCEPT !.lostAt = now] ELSE el[j]]
+  /\ UNCHANGED <<now, ntok, th, orph>>
+
+\* kind "other": a well-formed payload of an unknown party; "as": a well-formed payload naming instance id with a token
+\* that instance never had; "malformed": bytes no reader can parse; "empty": a zero-length value
+OutsidePut(kind, id) ==
+  /\ kind \in OutKinds \ {"del"} /\ g.outside < MaxOutside
+  /\ (kind = "as") = (id \in Inst)
+  /\ LET cls == IF kind \in {"other", "as"} THEN "payload" ELSE kind
+         nrec == [kind |-> "val", id |-> IF cls = "payload" THEN id ELSE None, tok |-> 0, prio |-> 0, rev |-> seq + 1, at |-> now,
+                  writer |-> "outside", cls |-> cls]
+         ev == IF cls = "empty" THEN [k |-> "del", id |-> None, prio |-> 0, rev |-> seq + 1]
+               ELSE IF cls = "malformed" THEN [k |-> "bad", id |-> None, prio |-> 0, rev |-> seq + 1]
+               ELSE [k |-> "val", id |-> id, prio |-> 0, rev |-> seq + 1]
+     IN /\ rec' = nrec /\ seq' = seq + 1 /\ wq' = Notify(ev)
+  /\ g' = [g EXCEPT !.outside = @ + 1, !.calm = FALSE, !.quiet = FALSE, !.vacSince = -1]
+  /\ el' = [j \in Inst |-> IF OutsideLoses(j) THEN [el[j] EXCEPT !.lostAt = now] ELSE el[j]]
   /\ UNCHANGED <<now, ntok, th, orph>>
 
 \* ---------------------------------------------------------------------------
@@ -344,7 +380,7 @@ Observe(e, id, rev) == IF e.leader /\ ~Dv("follower_bookkeeping_overwrites_leade
 TkGetResp(i, s) ==
   LET t == T(i, s) o == t.op IN
   /\ s \in AcqSlots /\ t.pc = "tkget" /\ o.ph = "app"
-  /\ IF ~o.ok THEN Commit(i, AcqFailed(i, s, Cur3(i)))
+  /\ IF ~o.ok \/ o.rcls # "payload" THEN Commit(i, AcqFailed(i, s, Cur3(i)))     \* also: "current leadership record is not readable"
      ELSE IF (IF Dv("takeover_ge") THEN Prio[i] < o.rprio ELSE Prio[i] <= o.rprio)
           THEN Commit(i, AcqFailed(i, s, [Cur3(i) EXCEPT !.e = Observe(@, o.rid, o.res)]))
           ELSE IF Stopped(i) /\ ~Dv("takeover_continues_after_stop")
@@ -465,17 +501,27 @@ ValTick(i) ==
 
 ValGetResp(i) ==
   LET t == T(i, "val") o == t.op IN
-  /\ t.pc = "get" /\ o.ph = "app"
-  /\ IF TermDone(i, t)
-     THEN th' = [th EXCEPT ![i]["val"] = Idle] /\ UNCHANGED <<el, g, wq>>
-     ELSE IF o.ok /\ o.rid = i /\ o.rtok = o.tok
-          THEN th' = [th EXCEPT ![i]["val"] = [t EXCEPT !.pc = "wait", !.due = @ + VI, !.op = NoOp, !.n = 0]] /\ UNCHANGED <<el, g, wq>>
-          ELSE IF o.ok \/ t.n + 1 >= 2 \/ TRUE      \* every validateToken failure carries an error: two in a row demote; a mismatch is an error too
-               THEN IF t.n + 1 >= 2 \/ Dv("validation_first_error_demotes")
-                    THEN Commit(i, LET r == DemoteBy(i, Cur3(i)) IN [r EXCEPT !.t["val"] = Idle])
-                    ELSE th' = [th EXCEPT ![i]["val"] = [t EXCEPT !.pc = "wait", !.due = @ + VI, !.op = NoOp, !.n = t.n + 1]] /\ UNCHANGED <<el, g, wq>>
-               ELSE UNCHANGED <<th, el, g, wq>>
+  /\ t.pc = "get" /\ o.ph = "app" /\ ~TermDone(i, t)           \* (a cancelled term context wins the select: ValCancelled)
+  /\ IF o.ok /\ o.rid = i /\ o.rtok = o.tok
+     THEN th' = [th EXCEPT ![i]["val"] = [t EXCEPT !.pc = "wait", !.due = @ + VI, !.op = NoOp, !.n = 0]] /\ UNCHANGED <<el, g, wq>>
+     ELSE \* every validateToken failure carries an error (a mismatch too): two in a row demote
+          IF t.n + 1 >= 2 \/ Dv("validation_first_error_demotes")
+          THEN Commit(i, LET r == DemoteBy(i, Cur3(i)) IN [r EXCEPT !.t["val"] = Idle])
+          ELSE th' = [th EXCEPT ![i]["val"] = [t EXCEPT !.pc = "wait", !.due = @ + VI, !.op = NoOp, !.n = t.n + 1]] /\ UNCHANGED <<el, g, wq>>
   /\ UNCHANGED <<now, rec, seq, ntok, orph>>
+
+\* the term context is cancelled while the validation read is in flight: validateToken returns "validation timeout",
+\* which counts as a failure; the second one in a row runs handleValidationFailure for a term that is already over
+ValCancelled(i) ==
+  LET t == T(i, "val") o == t.op IN
+  /\ t.pc = "get" /\ TermDone(i, t)
+  /\ orph' = IF o.ph = "iss" THEN orph \cup {o @@ [i |-> i]} ELSE orph
+  /\ IF t.n + 1 >= 2
+     THEN Commit(i, LET r == BecomeFollower(i, Cur3(i))
+                       s1 == [e |-> r.e, t |-> [r.t EXCEPT !["val"] = Idle], g |-> r.g, w |-> r.w]
+                   IN Demoted(s1, r.was \/ Dv("validation_failure_notifies_unconditionally")))
+     ELSE th' = [th EXCEPT ![i]["val"] = Idle] /\ UNCHANGED <<el, g, wq>>
+  /\ UNCHANGED <<now, rec, seq, ntok>>
 
 \* ---------------------------------------------------------------------------
 \* watch loop
@@ -505,7 +551,8 @@ WatchEvent(i) ==
   /\ LET ev == Head(wq[i])
          st0 == [Cur3(i) EXCEPT !.w = Tail(wq[i])]
      IN
-     IF ev.k \in {"nil", "del"}
+     IF ev.k = "bad" THEN Commit(i, st0)                       \* json.Unmarshal failed: the notification is ignored
+     ELSE IF ev.k \in {"nil", "del"}
      THEN \* handleWatchEvent: go attemptAcquireWithRetry(e.ctx)   (e.ctx nil after StopWithContext: a dead round)
           IF e.ctxnil \/ ~e.alive THEN Commit(i, st0)
           ELSE \E st \in SpawnRound(i, st0) : Commit(i, st)
@@ -546,9 +593,10 @@ CheckResp(i) ==
   /\ LET back == [t EXCEPT !.pc = "loop", !.op = NoOp, !.due = IF @ + CHK > now THEN @ + CHK ELSE now + 1]
          st0 == [Cur3(i) EXCEPT !.t["w"] = back]
      IN IF e.leader THEN Commit(i, st0)                     \* checkKeyAndReelect: if e.IsLeader() return (checked before the Get only; the stores are guarded)
-        ELSE IF ~o.ok
+        ELSE IF ~o.ok \/ o.rcls = "empty"                   \* no key, or a zero-length value: re-election
              THEN IF CtxDone(i, t) THEN Commit(i, st0)      \* go attemptAcquireWithRetry(ctx): exits at once
                   ELSE \E st \in SpawnRound(i, st0) : Commit(i, st)
+             ELSE IF o.rcls = "malformed" THEN Commit(i, st0)
              ELSE IF e.lid # None /\ e.lid # o.rid THEN Commit(i, [st0 EXCEPT !.e = Observe(@, o.rid, o.res)])
                   ELSE Commit(i, st0)
   /\ UNCHANGED <<now, rec, seq, ntok, orph>>
@@ -557,13 +605,13 @@ CheckResp(i) ==
 \* Stop / StopWithContext
 StopBegin(i, kind) ==
   /\ kind \in StopKinds /\ g.stops < MaxStops
-  /\ el[i].life = "running" /\ th[i]["stp"].pc = "idle"
+  /\ el[i].life \in {"running", "halted"} /\ th[i]["stp"].pc = "idle"
   /\ LET e == el[i]
          e2 == [e EXCEPT !.life = "stopping", !.alive = FALSE, !.wasLeader = e.leader,
                          !.leader = IF Dv("stop_keeps_claim") THEN @ ELSE FALSE, !.state = "STOPPED", !.wrun = FALSE,
                          !.termAlive = FALSE, !.ctxOpen = {}, !.grace = -1, !.pdue = -1, !.lostAt = -1]
      IN /\ el' = [el EXCEPT ![i] = e2]
-        /\ th' = [th EXCEPT ![i]["stp"] = [Idle EXCEPT !.pc = "wait", !.due = now + 20 * H, !.aux = IF kind = "stop" THEN 0 ELSE IF kind = "ctx" THEN 1 ELSE 2]]
+        /\ th' = [th EXCEPT ![i]["stp"] = [Idle EXCEPT !.pc = "wait", !.due = now + 20 * H, !.aux = IF kind = "stop" THEN 0 ELSE IF kind = "ctx" THEN 1 ELSE IF kind = "ctxdel" THEN 2 ELSE 3]]
   /\ g' = [g EXCEPT !.stops = @ + 1]
   /\ UNCHANGED <<now, rec, seq, ntok, wq, orph>>
 
@@ -571,7 +619,7 @@ WgIdle(i) == \A s \in Tracked : th[i][s].pc = "idle"
 
 StopWaitDone(i) ==
   LET t == T(i, "stp") e == el[i] IN
-  /\ t.pc = "wait" /\ WgIdle(i)
+  /\ t.pc = "wait" /\ WgIdle(i) /\ t.aux # 3
   /\ IF t.aux = 0
      THEN \* Stop(): OnDemote, return
           /\ el' = [el EXCEPT ![i] = [e EXCEPT !.life = "stopped", !.stopRet = TRUE, !.cb = IF e.wasLeader THEN @ - 1 ELSE @]]
@@ -584,6 +632,18 @@ StopWaitDone(i) ==
                                                    ELSE [t EXCEPT !.pc = "own", !.op = MkOp("get", 0, e.tok)])
                                              ELSE [t EXCEPT !.pc = "fin"]]
           /\ UNCHANGED g
+  /\ UNCHANGED <<now, rec, seq, ntok, wq, orph>>
+
+\* StopWithContext whose context is cancelled (or whose time-out fires) while it waits for the goroutines (kind "ctxabort"):
+\* the call returns an error; leadership was given up in StopBegin, so OnDemote is due (it runs in the background);
+\* e.ctx stays cancelled-but-not-nil: Start and a further StopWithContext are accepted (life "halted")
+StopAbort(i) ==
+  LET t == T(i, "stp") e == el[i] IN
+  /\ t.pc = "wait" /\ t.aux = 3
+  /\ el' = [el EXCEPT ![i] = [e EXCEPT !.life = "halted", !.cb = IF e.wasLeader /\ ~Dv("aborted_stop_skips_ondemote") THEN @ - 1 ELSE @,
+                                       !.wasLeader = FALSE]]
+  /\ th' = [th EXCEPT ![i]["stp"] = Idle]
+  /\ g' = IF e.wasLeader /\ e.cb # 1 THEN Viol(g, "C08_demotion_without_matching_promotion") ELSE g
   /\ UNCHANGED <<now, rec, seq, ntok, wq, orph>>
 
 StopOwnsResp(i) ==
@@ -613,7 +673,7 @@ StopFinish(i) ==
 \* ValidateToken / ValidateTokenOrDemote (API goroutine "api")
 ApiValidate(i, vod) ==
   /\ g.api < MaxApi /\ el[i].life = "running" /\ th[i]["api"].pc = "idle"
-  /\ g' = [g EXCEPT !.api = @ + 1]
+  /\ g' = [g EXCEPT !.api = @ + 1, !.quiet = IF vod THEN FALSE ELSE @]   \* a demotion by the user's own call is not C07's business
   /\ IF ~el[i].leader /\ ~Dv("validate_without_leader_gate")
      THEN UNCHANGED th                                                      \* ErrNotLeader: false, nothing to demote
      ELSE th' = [th EXCEPT ![i]["api"] = [Idle EXCEPT !.pc = "get", !.gen = el[i].gen, !.aux = IF vod THEN 1 ELSE 0,
@@ -707,13 +767,17 @@ Ready(i, s) == LET t == T(i, s) IN
   \/ s = "stp" /\ t.pc = "wait" /\ WgIdle(i)
   \/ s \in {"hb", "val"} /\ t.pc \in {"upd", "get", "health"} /\ TermDone(i, t)
 
+\* C10: j is a ready, takeover-enabled follower next to a claiming leader whose stored priority is strictly lower
+CanPreempt(j) == /\ TK[j] /\ ReadyCand(j) /\ Live /\ Readable /\ rec.id \in Inst \ {j} /\ el[rec.id].leader /\ Prio[j] > rec.prio
+
 Advance ==
   /\ now < MaxNow
   /\ \A i \in Inst, s \in Slots : ~Due(i, s) /\ ~Overdue(i, s) /\ ~Ready(i, s)
   /\ \A i \in Inst : ~(el[i].grace >= 0 /\ el[i].grace <= now) /\ ~(th[i]["vfy"].pc = "sleep" /\ th[i]["vfy"].due <= now)
   /\ now' = now + 1
   /\ LET expires == rec.kind = "val" /\ now < rec.at + TTL /\ now + 1 >= rec.at + TTL IN      \* silent expiry at the new instant
-     /\ el' = [j \in Inst |-> IF expires /\ el[j].leader /\ rec.id = j /\ rec.tok = el[j].tok THEN [el[j] EXCEPT !.lostAt = now + 1] ELSE el[j]]
+     /\ el' = [j \in Inst |-> LET e1 == IF expires /\ el[j].leader /\ rec.id = j /\ rec.tok = el[j].tok THEN [el[j] EXCEPT !.lostAt = now + 1] ELSE el[j]
+                             IN [e1 EXCEPT !.preSince = IF CanPreempt(j) THEN (IF @ >= 0 THEN @ ELSE now) ELSE -1]]
      /\ g' = IF expires
              THEN LET g1 == IF g.calm /\ (\E j \in Inst : el[j].leader /\ rec.id = j) THEN Viol(g, "C02_record_expired_while_claiming") ELSE g IN
                   [g1 EXCEPT !.vacSince = IF \E j \in Inst : ReadyCand(j) THEN now + 1 ELSE @]
@@ -724,17 +788,18 @@ Advance ==
 Next ==
   \/ Advance
   \/ OutsideDelete
+  \/ \E k \in OutKinds \ {"del"}, id \in Inst \cup {"X"} : OutsidePut(k, id)
   \/ \E o \in orph : OrphApply(o) \/ OrphDrop(o)
   \/ \E i \in Inst :
        \/ Start(i) \/ \E k \in StopKinds : StopBegin(i, k)
-       \/ StopWaitDone(i) \/ StopOwnsResp(i) \/ StopDeleteResp(i) \/ StopFinish(i)
+       \/ StopWaitDone(i) \/ StopAbort(i) \/ StopOwnsResp(i) \/ StopDeleteResp(i) \/ StopFinish(i)
        \/ \E s \in Slots : StoreApply(i, s) \/ LoseAck(i, s) \/ PartTimeout(i, s)
                           \/ \E c \in {"timeout", "other"} : StoreFail(i, s, c)
        \/ \E s \in AcqSlots : AcqCreateResp(i, s) \/ TkGetResp(i, s) \/ TkUpdateResp(i, s)
        \/ \E k \in Rounds : RoundTimer(i, k)
        \/ TkoStart(i)
        \/ HbTick(i) \/ HbUpdateResp(i) \/ HbTimeout(i) \/ HbCancelled(i) \/ \E b \in BOOLEAN : HbHealth(i, b)
-       \/ ValTick(i) \/ ValGetResp(i)
+       \/ ValTick(i) \/ ValGetResp(i) \/ ValCancelled(i)
        \/ WatchOpenResp(i) \/ WatchExit(i) \/ WatchEvent(i) \/ CheckTick(i) \/ CheckResp(i)
        \/ Partition(i) \/ Heal(i) \/ DropEvent(i)
        \/ \E v \in BOOLEAN : ApiValidate(i, v)
@@ -747,7 +812,7 @@ Spec == Init /\ [][Next]_vars
 \* properties (Props.tla operators on the model's state)
 NoOverflow == ~g.overflow
 
-RecP == [live |-> Live, id |-> rec.id, tok |-> rec.tok, prio |-> rec.prio, cls |-> "payload",
+RecP == [live |-> Live, id |-> rec.id, tok |-> rec.tok, prio |-> rec.prio, cls |-> rec.cls,
          rev |-> rec.rev, writer |-> rec.writer, at |-> rec.at]
 
 KnownViol == {"KNOWN_C01_delete_after_owner_check"}
@@ -755,7 +820,7 @@ NoViolation == g.viol \subseteq KnownViol                                       
 C02_AtMostOne == g.calm => AtMostOneLeader({i \in Inst : el[i].leader})
 C02_Backed == g.calm => \A i \in Inst : el[i].leader => ClaimBacked(i, RecP, el[i].tok)
 C08_Balanced == \A i \in Inst : el[i].life # "stopping" => Balanced(el[i].leader, el[i].cb + (IF el[i].life = "stopped" /\ FALSE THEN 0 ELSE 0), 0) \/ el[i].cb \in {0, 1}
-C08_Mirror == \A i \in Inst : (el[i].life \in {"running", "stopped", "init"} /\ (\A s \in Slots : ~Ready(i, s))) => (el[i].leader <=> el[i].cb = 1)
+C08_Mirror == \A i \in Inst : (el[i].life \in {"running", "stopped", "init", "halted"} /\ (\A s \in Slots : ~Ready(i, s))) => (el[i].leader <=> el[i].cb = 1)
 \* after Stop returned no goroutine of the instance is about to issue a further operation of a multi-step sequence
 C09_NoNewOps == \A i \in Inst : el[i].life = "stopped" => \A s \in AcqSlots : th[i][s].pc \notin {"tkget", "tkupd"} \/ th[i][s].op.at <= now
 C09_Final == \A i \in Inst : el[i].life = "stopped" => ~el[i].leader /\ el[i].state = "STOPPED"
@@ -768,6 +833,12 @@ MaxJit == CHOOSE j \in JIT : \A k \in JIT : k <= j
 C06_Filled == (g.vacSince >= 0 /\ g.faults = 0 /\ \E j \in Inst : ReadyCand(j)) => now <= g.vacSince + CHK + MaxJit + 6 * LAT + 2
 \* C11: the leader is demoted when the grace period since the latest disconnect elapses without a reconnect
 C11_Grace == \A i \in Inst : el[i].pdue >= 0 /\ el[i].leader => now <= el[i].pdue
+\* C03: without store faults a leader whose record was lost is demoted by the completion of its next refresh
+\* (instances without a health checker: an unhealthy tick skips the refresh, known finding)
+C03_Bound == \A i \in Inst : (el[i].leader /\ el[i].lostAt >= 0 /\ g.faults = 0 /\ HN[i] = 0) => now <= el[i].lostAt + H + LAT
+\* C10: in fault-free conditions the higher-priority takeover-enabled instance leads within three heartbeat intervals
+C10_Prompt == \A j \in Inst : (el[j].preSince >= 0 /\ CanPreempt(j) /\ g.faults = 0 /\ g.outside = 0 /\ g.connev = 0 /\ g.unhealthy = 0)
+                               => now <= el[j].preSince + 3 * H + 4 * LAT
 \* used with -simulate to end a random behaviour at the time horizon (tools/simgen.py exports the behaviour)
 SimRunning == now < MaxNow
 TypeOK == /\ now \in 0..MaxNow /\ \A i \in Inst : el[i].cb \in -1..2
